@@ -191,7 +191,15 @@ Step(tr, i) ==
                                          \/ (res.items[k].status = "Success" /\ Len(res.items[k].uids) > 0
                                              /\ req.items[k].op \notin CreatingOps \cup {"Locate"}
                                              /\ res.items[k].uids[1] # PhBefore(req, res, k))
-                                   THEN {"C08_placeholder"} ELSE {})]
+                                   THEN {"C08_placeholder"} ELSE {})
+                             \* C08(d): an item that follows a failed item of the same batch is answered as the specification
+                             \* answers it from the store as it stands at that point - the failure left nothing behind in the
+                             \* unit of work that would make a later item fail (or succeed) where it would not have on its own
+                             \cup (IF k > 1 /\ (\E j \in 1..(k - 1) : res.items[j].status # "Success")
+                                      /\ LET mk == RunItem(before(k), req, req.items[k]) IN
+                                           /\ mk.status # "Unmodelled" /\ ~mk.any
+                                           /\ (mk.status = "Success") # (res.items[k].status = "Success")
+                                   THEN {"C08_disturbed"} ELSE {})]
                      ELSE <<>>
         reqFails == ReqFailed(s, req, res, pre, post)
         drift == ReqDrift(pre, req, res, post)
